@@ -6,7 +6,7 @@ slow-hash keys growing through several doublings (Find of every key, bit-exact r
 number of full-hash recomputations)."""
 import os
 
-GEN = ['gen_base.json', 'gen_open2n2.json', 'gen_o2set.json', 'gen_o2mp.json', 'gen_limp4.json', 'gen_limp4_add.json', 'gen_limp4_add16.json', 'gen_ptr32.json', 'gen_ptr48.json', 'gen_ptr64.json', 'gen_one.json', 'gen_hs_find.json', 'gen_hs_findin.json', 'gen_hs_add.json', 'gen_hs_reloc.json', 'gen_hs_grow.json']
+GEN = ['gen_base.json', 'gen_open2n2.json', 'gen_o2set.json', 'gen_o2mp.json', 'gen_limp4.json', 'gen_limp4_add.json', 'gen_limp4_add16.json', 'gen_ptr32.json', 'gen_ptr48.json', 'gen_ptr64.json', 'gen_one.json', 'gen_hs_find.json', 'gen_hs_findin.json', 'gen_hs_add.json', 'gen_hs_reloc.json', 'gen_hs_grow.json', 'gen_policy_o2.json']
 M64 = (1 << 64) - 1
 
 def qof(L): return (L + 6) // 8
